@@ -3,6 +3,7 @@ package checks
 import (
 	"encoding/base64"
 	"fmt"
+	"math"
 	"net/http"
 	"net/url"
 	"strings"
@@ -93,10 +94,10 @@ func c07Run(c *fw.Ctx) {
 	uris := c07URIs(c.Thorough())
 	rootLists := [][]string{{"sso.test"}, {".sso.test", "other.test"}}
 	sigs := []string{"valid", "valid-for-another-uri", "wrong-secret", "missing", "not-base64"}
-	tss := []string{"now", "-299s", "-301s", "+1h", "non-numeric", "missing"}
+	tss := []string{"now", "-299s", "-301s", "+1h", "non-numeric", "missing", "min-int64", "min-int64+1", "zero", "minus-now", "max-int64"}
 	endpoints := []string{"sign_in/no-cookie", "sign_in/cookie", "sign_out/GET/cookie", "sign_out/GET/no-cookie", "sign_out/POST/cookie", "sign_out/POST/no-cookie", "start/nested", "start/outer", "callback/state", "sign_out-split/POST/cookie", "sign_out-split/POST/no-cookie", "callback-error/state"}
 	if !c.Thorough() {
-		tss = []string{"now", "-301s", "+1h", "missing"}
+		tss = []string{"now", "-301s", "+1h", "missing", "min-int64"}
 	}
 	now := harness.T0
 	future := harness.At(time.Hour)
@@ -120,6 +121,16 @@ func c07Run(c *fw.Ctx) {
 			tsNum -= 301
 		case "+1h":
 			tsNum += 3600
+		case "min-int64": // ages computed by subtraction wrap around for such values
+			tsNum = math.MinInt64
+		case "min-int64+1":
+			tsNum = math.MinInt64 + 1
+		case "zero":
+			tsNum = 0
+		case "minus-now":
+			tsNum = -tsNum
+		case "max-int64":
+			tsNum = math.MaxInt64
 		}
 		ts = fmt.Sprint(tsNum)
 		if tsKind == "non-numeric" {
@@ -321,7 +332,7 @@ func init() {
 		ID:    "C07",
 		Level: "exploration",
 		Rule: "full product on the unmodified NewAuthenticatorMux (Okta provider against a scripted IdP over TLS): URI grammar = scheme {https, http, HTTPS, javascript, none, //} x userinfo {none, in-domain-looking@ (thorough: x:y@)} x host {root, sub.root, other, root as prefix of another domain, look-alike suffix, root with its dot replaced by another character, upper case, trailing dot, with port, IPv6, empty, %2f / backslash / TAB / # / ? inside} x tail {path, query naming another authority (thorough: fragment and path with @)}; " +
-			"root-domain lists {[sso.test], [.sso.test, other.test]}; signature {valid, valid for another URI, wrong secret, missing, not base64}; ts via the virtual clock {now, -301 s, +1 h, missing (thorough: -299 s, non-numeric)}; " +
+			"root-domain lists {[sso.test], [.sso.test, other.test]}; signature {valid, valid for another URI, wrong secret, missing, not base64}; ts via the virtual clock {now, -301 s, +1 h, missing, the smallest int64 (thorough: -299 s, non-numeric, smallest int64 + 1, 0, -now, largest int64)}, each validly signed where a signature is valid; " +
 			"endpoints: sign_in with/without authenticator cookie, sign_out GET/POST with/without cookie, start with the URI as nested proxy URI and as outer return URI, callback with the URI carried in state (also with error=access_denied), sign_out POST with the URI in the query and a correctly signed one in the body. " +
 			"Oracle: every 3xx Location other than the IdP's resolves inside the root domains under both an RFC 3986 and a browser-style reading; a code-carrying redirect, a sign-in/sign-out redirect and the start of an IdP login happen only if an independent HMAC-SHA256 recomputation accepts (uri, sig, ts) with ts <= 300 s old; " +
 			"distinct_nontrivial = distinct (endpoint, URI class, sig, ts, roots, outcome)",
